@@ -24,6 +24,9 @@ func (m *Machine) callNative(t *Thread, name string, args []Value, ins ssa.Instr
 	}
 	switch name[8:] {
 	case "len":
+		if mp, ok := args[0].(*MapObj); ok {
+			m.raceMap(t, mp, false, ins)
+		}
 		ret(m.builtinLen(args[0]))
 	case "cap":
 		switch a := args[0].(type) {
@@ -49,6 +52,7 @@ func (m *Machine) callNative(t *Thread, name string, args []Value, ins ssa.Instr
 	case "copy":
 		ret(m.builtinCopy(args[0], args[1], ins))
 	case "delete":
+		m.raceMap(t, args[0].(*MapObj), true, ins)
 		m.mapDelete(args[0].(*MapObj), args[1])
 		ret(nil)
 	case "close":
@@ -189,6 +193,11 @@ func (m *Machine) sliceElems(v Value) []Value {
 		if a.Nil || a.Len == 0 {
 			return nil
 		}
+		if m.raceOn() && m.cur != nil {
+			for k := 0; k < a.Len; k++ {
+				m.raceRead(m.cur, Ptr{a.C, a.Off + k}, nil)
+			}
+		}
 		return a.C.E[a.Off : a.Off+a.Len]
 	case Str:
 		out := make([]Value, len(a.B))
@@ -220,6 +229,7 @@ func (m *Machine) builtinAppend(dst, src Value, ins ssa.Instruction) Value {
 	}
 	if !d.Nil && d.Len+n <= d.Cap {
 		for i, e := range tmp {
+			m.raceWrite(m.cur, Ptr{d.C, d.Off + d.Len + i}, ins)
 			m.storeCell(d.C, d.Off+d.Len+i, e)
 		}
 		return Slice{C: d.C, Off: d.Off, Len: d.Len + n, Cap: d.Cap}
@@ -274,6 +284,7 @@ func (m *Machine) builtinCopy(dst, src Value, ins ssa.Instruction) Value {
 		tmp[i] = m.copyVal(elems[i])
 	}
 	for i := 0; i < n; i++ {
+		m.raceWrite(m.cur, Ptr{d.C, d.Off + i}, ins)
 		m.storeCell(d.C, d.Off+i, tmp[i])
 	}
 	return smt.BV(64, uint64(n))
